@@ -122,13 +122,20 @@ Definition dec_HistSummariesKey (strict : bool) (data : bytes) : res N :=
   if strict && negb (nlen data =? 8) then Err E_STRICT else
   bind (rd_read (rd_new data) 8) (fun '(b, _) => Ok (le_dec b)).
 
+(* ---- ping_ext CustomPayloadExtensionsFormatPayload (portalwire/ping_ext/basic.go): ByteList[1100] on its own;
+        Serialize = w.Write, Deserialize = dr.ByteList(limit) on a reader scoped to the whole input *)
+Definition enc_CustomPayload (v : bytes) : res bytes := Ok v.
+Definition dec_CustomPayload (data : bytes) : res bytes :=
+  bind (z_unmarshal false (fun r => bind (z_de (z_bytelist L_CustomPayload) r) (fun '(f, r') => Ok ([f], r'))) data) (fun vs =>
+  match vs with [FB b] => Ok b | _ => Panic end).
+
 (* ------------------------------------------------------------------ what the code does today *)
 Definition code_strict_state_fixed_keys : bool := true.    (* false (as found): ContractBytecodeKey / HistoricalSummariesWithProofKey ignore trailing bytes *)
 
 (* ------------------------------------------------------------------ generic layer *)
 Inductive ty2 : Type :=
 | TAccountTrieNodeKey | TStorageTrieNodeKey | TBytecodeKey | TTrieNode | TTrieProof | TBytecodeContainer
-| TAccountTrieNodeWithProof | TStorageTrieNodeWithProof | TBytecodeWithProof | THistSummariesKey.
+| TAccountTrieNodeWithProof | TStorageTrieNodeWithProof | TBytecodeWithProof | THistSummariesKey | TCustomPayload.
 
 Definition schema2 (t : ty2) : list kind :=
   match t with
@@ -141,6 +148,7 @@ Definition schema2 (t : ty2) : list kind :=
   | TStorageTrieNodeWithProof => [KL; KL; KB]
   | TBytecodeWithProof => [KB; KL; KB]
   | THistSummariesKey => [KN]
+  | TCustomPayload => [KB]
   end.
 
 Definition enc_any2 (t : ty2) (fs : list field) : res bytes :=
@@ -155,6 +163,7 @@ Definition enc_any2 (t : ty2) (fs : list field) : res bytes :=
   | TStorageTrieNodeWithProof, [FL s; FL a; FB h] => enc_StorageTrieNodeWithProof (s, a, h)
   | TBytecodeWithProof, [FB c; FL a; FB h] => enc_BytecodeWithProof (c, a, h)
   | THistSummariesKey, [FN n] => enc_HistSummariesKey n
+  | TCustomPayload, [FB b] => enc_CustomPayload b
   | _, _ => Err E_SHAPE
   end.
 
@@ -170,6 +179,7 @@ Definition dec_any2 (fs : bool) (t : ty2) (b : bytes) : res (list field) :=
   | TStorageTrieNodeWithProof => rmap (fun '(s, a, h) => [FL s; FL a; FB h]) (dec_StorageTrieNodeWithProof b)
   | TBytecodeWithProof => rmap (fun '(c, a, h) => [FB c; FL a; FB h]) (dec_BytecodeWithProof b)
   | THistSummariesKey => rmap (fun n => [FN n]) (dec_HistSummariesKey fs b)
+  | TCustomPayload => rmap (fun x => [FB x]) (dec_CustomPayload b)
   end.
 
 Definition all_lt16 (b : bytes) : bool := forallb (fun x => b2n x <? 16) b.
@@ -187,6 +197,7 @@ Definition limits_any2 (t : ty2) (fs : list field) : list bool :=
   | TStorageTrieNodeWithProof, [FL s; FL a; FB h] => [proof_ok s; proof_ok a; true]
   | TBytecodeWithProof, [FB c; FL a; FB h] => [len_le L_Bytecode c; proof_ok a; true]
   | THistSummariesKey, [FN n] => [true]
+  | TCustomPayload, [FB b] => [len_le L_CustomPayload b]
   | _, _ => [false]
   end.
 
